@@ -30,7 +30,7 @@ def check_input(ctx, r, inp):
             "impl_errors": [{"lexeme": e[0], "state": e[1], "n_repairs": e[2]} for e in inp.errors],
             "impl_value": (inp.value or "")[:300], "conflicts": r.conflicts}
     m = inp.model or {}
-    n, N = len(inp.toks), r.PN
+    n, N = len(inp.toks), 3          # the property's N (r.PN is checked to be 3)
     why = []
     pos = [e[0] for e in inp.errors]
     val = inp.value.startswith("acc ")
@@ -108,15 +108,21 @@ def run(ctx):
     ctx.gate = core.proof_gate("C07")
     for _ in ctx.gate["theorems"]:
         ctx.oblige(True)
-    cases = repairgen.gen_cases(ctx, ctx.n(320, 5000), ctx.n(7, 8))
+    cases = repairgen.gen_cases(ctx, ctx.n(240, 2500), ctx.n(7, 8))
     # the known looping table (DESIGN §9 / C07 finding) is always part of the corpus
     from gen.grammars import Gram
     t, rr = (lambda x: ('t', x)), (lambda x: ('r', x))
     loopg = Gram(["a", "b", "c", "d"], [("S", [[t("c"), t("c"), rr("A")], [rr("B")]]),
                                         ("A", [[], [rr("B"), t("b")]]),
                                         ("B", [[t("a"), t("a"), t("d")], [rr("A"), rr("A")]])])
-    cases.insert(0, ("looptable", loopg, "unit", {}, [["b"], ["c", "c"], ["a", "a", "d"], ["c", "c", "b"], []]))
-    results = repair.run_cases(cases)
+    corpus = []
+    corpus.insert(0, ("looptable", loopg, "unit", {}, [["b"], ["c", "c"], ["a", "a", "d"], ["c", "c", "b"], []]))
+    # a table/cost pair on which no repair exists below cost 65535 (u16 overflow, known finding)
+    ovg = Gram(["a"], [("S", [[t("a"), rr("C")], [t("a")]]),
+                       ("C", [[t("a"), rr("S"), t("a")], [rr("S"), rr("C"), t("a"), rr("C")]])])
+    corpus.insert(1, ("overflow", ovg, "all255", {"a": 255}, [["a", "a", "a"]]))
+    # (a larger budget for the corpus: the overflow needs ~260 search levels before the budget ends)
+    results = repair.run_cases(corpus, budget_ms=8000) + repair.run_cases(cases)
     for r in results:
         if not r.ok:
             ctx.count("grammar_rejected_" + r.err.split()[0])
@@ -126,9 +132,18 @@ def run(ctx):
             continue
         ctx.count("family_" + r.fam)
         ctx.count("costs_" + r.cname)
+        if r.PN != 3 and not ctx.hist.get('parse_at_least_not_3'):
+            ctx.count('parse_at_least_not_3')
+            ctx.violation({"what": "PARSE_AT_LEAST is %d; the property demands later errors at least three real lexemes further on" % r.PN,
+                           "grammar": r.src}, no_input=True)
+            ctx.oblige(False)
         conflict_free = r.conflicts is None and r.verdict.get("single", False)
         ctx.count("table_conflict_free" if conflict_free else "table_with_resolved_conflicts")
         cyclic = (not isinstance(r.gram, str)) and r.gram.derives_cycle()
+        if not r.verdict.get("nse", True):
+            ctx.violation({"what": "the table shifts the end-of-input token: hypothesis no_shift_eof of errors_spaced / "
+                                   "error_count_bounded / driver_terminates fails", "grammar": r.src}, no_input=True)
+            ctx.oblige(False)
         for inp in r.inputs:
             key = r.src + repr(sorted(r.costs.items())) + repr(inp.toks)
             if inp.value in ("hang", "crash") or inp.value is None:
